@@ -121,6 +121,13 @@ Theorem C20_ln_data_certified : forall y l, check_ln_case (y, l) = true ->
 Proof. exact check_ln_case_sound. Qed.
 Print Assumptions C20_ln_data_certified.
 
+(* round 4: a series held in float32 / float16 has its logarithm taken in that format; the values are certified as
+   logarithms at the accuracy 2^-k of that format (k is part of the case) *)
+Theorem C20_ln_data_certified_at_format_accuracy : forall k y l, check_ln_case_w (k, (y, l)) = true ->
+  Forall2 (fun y l => (0 < Q2R y)%R /\ (Rabs (ln (Q2R y) - Q2R l) <= Q2R ((1 # (2 ^ k)) * Qabs l))%R) (dyl y) (dyl l).
+Proof. exact check_ln_case_w_sound. Qed.
+Print Assumptions C20_ln_data_certified_at_format_accuracy.
+
 (* ---- non-vacuity ---- *)
 (* a solution exists for the hypotheses `veq (A lam ts) y`: take any ts and y := A lam ts *)
 Example C20_nonvacuous_system :
@@ -154,4 +161,15 @@ Example C20_nonvacuous_ln :
   /\ check_ln_case ([(3, 0)]%Z, [(4947709893870347 + 1024, -52)]%Z) = false (* 1024 ulp away *)
   /\ check_ln_case ([(0, 0)]%Z, [(0, 0)]%Z) = false                       (* ln 0 undefined *)
   /\ check_ln_case ([(1, 0)]%Z, [(0, 0)]%Z) = true.
+Proof. vm_compute. repeat split. Qed.
+
+(* round 4: np.log(np.float32(3)) = 9215828 * 2^-23 is a logarithm at float32 accuracy (k = 19), not at double accuracy
+   (k = 44, and the double-precision check rejects it); a value 32 float32-ulps away is rejected at k = 19 *)
+Example C20_nonvacuous_ln_at_format_accuracy :
+  check_ln_case_w (19%positive, ([(3, 0)]%Z, [(9215828, -23)]%Z)) = true
+  /\ check_ln_case_w (44%positive, ([(3, 0)]%Z, [(9215828, -23)]%Z)) = false
+  /\ check_ln_case ([(3, 0)]%Z, [(9215828, -23)]%Z) = false
+  /\ check_ln_case_w (19%positive, ([(3, 0)]%Z, [(9215828 + 32, -23)]%Z)) = false
+  /\ check_ln_case_w (19%positive, ([(0, 0)]%Z, [(0, 0)]%Z)) = false
+  /\ check_ln_case_w (8%positive, ([(3, 0)]%Z, [(1125, -10)]%Z)) = true.   (* float16: log(3) = 1.0986328125 *)
 Proof. vm_compute. repeat split. Qed.
